@@ -220,7 +220,7 @@ class RealCluster:
                           [(idx(x), v.value) for x, v in sm.instance_states.items()], list(self.pending[k]),
                           len(self.inbox[k])))
         chans = [len(self.chan.get((i, j), [])) for i in self.members for j in self.members]
-        views = [(k, NodeSuite.views(self.supv[k])) for k in self.members]
+        views = [(k, [v for v in NodeSuite.views(self.supv[k]) if v[0] in self.members]) for k in self.members]
         return (nodes, chans, views)
 
 
@@ -229,7 +229,7 @@ class ClusterSuite(Suite):
     prelude = 'From Sup Require Import Node Cluster ClusterSpec.\nOpen Scope Z_scope.'
     case_type = 'ccase'
     evals = {'mismatches': 'cmismatches'}
-    shard_size = 40
+    shard_size = 20
 
     def __init__(self, evals=None, quick=(150, 120), thorough=(400, 300), quiet_rounds=0, convergent_cfg=False):
         self._clock = False
